@@ -564,6 +564,21 @@ def canonicalise(tree: ast.AST) -> None:
             elif not lc and not rc and op in (ast.Eq, ast.NotEq) and _selector(l_) and _selector(r_) and _order_key(l_) > _order_key(r_):
                 # a == b and b == a are one spelling: operands in a fixed (textual) order
                 node.left, node.comparators[0] = r_, l_
+    _normalise_len_compares(tree)
+    # raise AssertionError[(msg)] as a statement of its own   ->   assert False[, msg]
+    for node in ast.walk(tree):
+        for fld in ("body", "orelse", "finalbody"):
+            seq = getattr(node, fld, None)
+            if not (isinstance(seq, list) and seq and isinstance(seq[0], ast.stmt)):
+                continue
+            for i, st in enumerate(seq):
+                if isinstance(st, ast.Raise) and st.cause is None and st.exc is not None:
+                    exc = st.exc
+                    cls_ = exc.func if isinstance(exc, ast.Call) else exc
+                    if isinstance(cls_, ast.Name) and cls_.id == "AssertionError" and (not isinstance(exc, ast.Call) or (len(exc.args) <= 1 and not exc.keywords)):
+                        msg = exc.args[0] if isinstance(exc, ast.Call) and exc.args else None
+                        seq[i] = ast.copy_location(ast.Assert(test=ast.Constant(value=False), msg=msg), st)
+                        ast.fix_missing_locations(seq[i])
     # for k, v in d.items() with an unused k (v)  ->  for v in d.values()  (for k in d)
     for fn_ in ast.walk(tree):
         if not isinstance(fn_, (ast.FunctionDef, ast.AsyncFunctionDef)):
@@ -717,6 +732,26 @@ def canonicalise(tree: ast.AST) -> None:
             if isinstance(t, ast.UnaryOp) and isinstance(t.op, ast.Not):
                 node.test = t.operand
                 node.body, node.orelse = node.orelse, node.body
+    _normalise_len_compares(tree)
+
+
+def _normalise_len_compares(tree: ast.AST) -> None:
+    # a length is a non-negative integer:  len(x) != 0, len(x) >= 1  ->  len(x) > 0 ;  len(x) < 1, len(x) <= 0  ->  len(x) == 0
+    #                                      len(x) >= 2 -> len(x) > 1 ;  len(x) < 2 -> len(x) <= 1
+    for node in ast.walk(tree):
+        if isinstance(node, ast.Compare) and len(node.ops) == 1 and isinstance(node.left, ast.Call) and isinstance(node.left.func, ast.Name) and node.left.func.id == "len" and isinstance(node.comparators[0], ast.Constant) and isinstance(node.comparators[0].value, int) and not isinstance(node.comparators[0].value, bool):
+            k_ = node.comparators[0].value
+            op = type(node.ops[0])
+            if op is ast.NotEq and k_ == 0:
+                node.ops[0] = ast.Gt()
+            elif op is ast.GtE and k_ >= 1:
+                node.ops[0], node.comparators[0] = ast.Gt(), ast.copy_location(ast.Constant(value=k_ - 1), node.comparators[0])
+            elif op is ast.LtE and k_ == 0:
+                node.ops[0] = ast.Eq()
+            elif op is ast.Lt and k_ == 1:
+                node.ops[0], node.comparators[0] = ast.Eq(), ast.copy_location(ast.Constant(value=0), node.comparators[0])
+            elif op is ast.Lt and k_ >= 2:
+                node.ops[0], node.comparators[0] = ast.LtE(), ast.copy_location(ast.Constant(value=k_ - 1), node.comparators[0])
 
 
 def _bound_to_list(tree: ast.AST, name: str) -> bool:
